@@ -81,6 +81,12 @@ def check_case(case) -> Result:
     c4, d4 = pt.comp_mass(a, **kw)
     if c4 != c or d4 != d:
         r.fail('annotation input gives the same composition as string input', 'C03/annotation-input-differs', **ctx)
+    # ... and the two calculators still agree on the same object after the composition calls (the calls are queries)
+    pt.comp(a, estimate_delta=True, **kw)
+    m_after = pt.mass(a, monoisotopic=mono, **kw)
+    if abs(m_after - m) > 1e-9:
+        r.fail('mass and composition agree on one annotation object whatever was called before', 'C03/mass-after-comp-calls-differs',
+               before=m, after=m_after, annotation_now=a.serialize(), **ctx)
     return r
 
 
@@ -127,7 +133,7 @@ def strategy():
     static_text = gen.mass_mod_text(('num', 'formula', 'unimod', 'glycan', 'psi'), gt_ok=False, chnops=True)
     pm = gen.pep_model(alphabet=gen.AA_MASS, min_len=1, max_len=20, kinds=KINDS, mod_strategy=one,
                        mod_list=st.lists(one, min_size=1, max_size=2), allow_empty=False, static_mod_text=static_text,
-                       isotopes=['13C', '15N', '18O', 'D', 'T'])
+                       isotopes=['13C', '15N', '18O', 'D', 'T'], static_max_mult=3)
     add = gen.adduct_text()
 
     @st.composite
